@@ -17,11 +17,10 @@ def run(ctx):
     quick = ctx.tier == "quick"
     ctx.build_harness()
     ctx.tlc_must_pass("MC_Encoder", "MC_Encoder", timeout=900)
-    g = ctx.tlc("MC_Encoder", "GEN_Encoder_q" if quick else "GEN_Encoder_t", timeout=1800)
+    gen = os.path.join(ctx.tmp, "gen_enc.out")
+    g = ctx.tlc("MC_Encoder", "GEN_Encoder_q" if quick else "GEN_Encoder_t", timeout=1800, out_file=gen)
     if g["error"] or not g["finished"]:
         raise vlib.Broken("GEN run failed:\n" + vlib.tail(g["out"]))
-    gen = os.path.join(ctx.tmp, "gen_enc.out")
-    open(gen, "w").write(g["out"])
     mis = os.path.join(ctx.tmp, "mis_enc.ndjson")
     p, _ = ctx.run_harness(["replay-enc", "-in", gen, "-out", mis, "-fields", "err,mode,run,bytes,zero"])
     rs = json.loads([l for l in p.stdout.splitlines() if l.startswith("@@SUMMARY ")][-1][10:])
